@@ -254,35 +254,46 @@ theorem motor_agrees (f : FMotor K) (h : Host.Motor K) (op : Host.MotorOp K) (hr
   open Lemmas.C04 Lemmas.C19 in
   obtain ⟨hs, hi, hm⟩ := hrel
   obtain ⟨hb0, hb1, hap⟩ := hinv
-  have hmode : ∀ x : K, NotTinyL x →
-      (if dutyL (effOf h.inverted x) = 0 then FMode.coast else FMode.drive) =
-        modeImage (if effOf h.inverted x = 0 then Host.Mode.coast else Host.Mode.drive) := by
-    intro x hx
+  have hmode : ∀ (inv : Bool) (x : K), NotTinyL x →
+      (if dutyL (effOf inv x) = 0 then FMode.coast else FMode.drive) =
+        modeImage (if effOf inv x = 0 then Host.Mode.coast else Host.Mode.drive) := by
+    intro inv x hx
     rw [ite_duty (notTiny_effOf hx)]
     split <;> rfl
+  have key : ∀ (x : K) (w : Val K), FMotor.clampSpeed x = Host.Motor.clamp w → NotTinyL (Host.Motor.clamp w) →
+      RelMotor (driveSt f x true) (Host.Motor.setSpeed h w) := by
+    intro x w hx hn
+    rw [host_setSpeed_eq]
+    refine ⟨hx, hi, ?_⟩
+    show (if dutyL (effOf f.inverted (FMotor.clampSpeed x)) = 0 then FMode.coast else FMode.drive) = _
+    rw [hx, hi]
+    exact hmode _ _ hn
+  have hz : (fzero : K) = Host.Motor.zero := by rw [fzero_eq, zero_eq]
   cases op with
   | setSpeed v =>
     have hn : NotTinyL (Host.Motor.clamp v) := hnt _ (by simp [Host.Motor.step, host_setSpeed_eq])
-    simp only [motorOp, FMotor.step, drive_eq, Host.Motor.step, host_setSpeed_eq, RelMotor, driveSt,
-      clampSpeed_toF, hi, if_true]
-    exact ⟨trivial, trivial, hmode _ hn⟩
+    simp only [motorOp, FMotor.step, drive_eq, Host.Motor.step]
+    exact key _ _ (clampSpeed_toF v) hn
   | backward v =>
     have hn : NotTinyL (Host.Motor.clamp (.flt (-(Host.Motor.fabs (Host.Motor.clamp v))))) :=
       hnt _ (by simp [Host.Motor.step, host_setSpeed_eq])
-    simp only [motorOp, FMotor.step, drive_eq, Host.Motor.step, host_setSpeed_eq, RelMotor, driveSt,
-      backward_eq, hi, if_true]
-    exact ⟨trivial, trivial, hmode _ hn⟩
+    simp only [motorOp, FMotor.step, drive_eq, Host.Motor.step]
+    exact key _ _ (backward_eq v) hn
   | stop =>
-    simp only [motorOp, FMotor.step, Host.Motor.step, RelMotor, fzero_eq, zero_eq, hi, modeImage]
-    exact ⟨trivial, trivial, trivial⟩
+    simp only [motorOp, FMotor.step, Host.Motor.step]
+    exact ⟨hz, hi, rfl⟩
   | coast =>
-    simp only [motorOp, FMotor.step, Host.Motor.step, RelMotor, fzero_eq, zero_eq, hi, modeImage]
-    exact ⟨trivial, trivial, trivial⟩
+    simp only [motorOp, FMotor.step, Host.Motor.step]
+    exact ⟨hz, hi, rfl⟩
   | invert =>
     have hc : FMotor.clampSpeed f.speed = h.speed := by rw [hs]; exact clampSpeed_id hb0 hb1
-    simp only [motorOp, FMotor.step, drive_eq, Host.Motor.step, host_apply_eq, RelMotor, driveSt, hc, hi,
-      Bool.false_eq_true, if_false]
-    exact ⟨hs, trivial, hmode _ hnt0⟩
+    simp only [motorOp, FMotor.step, drive_eq, Host.Motor.step, host_apply_eq]
+    refine ⟨hs, ?_, ?_⟩
+    · show (!f.inverted) = (!h.inverted)
+      rw [hi]
+    · show (if dutyL (effOf (!f.inverted) (FMotor.clampSpeed f.speed)) = 0 then FMode.coast else FMode.drive) = _
+      rw [hc, hi]
+      exact hmode _ _ hnt0
   | ramp t d =>
     by_cases hd : Val.lt d (.int 0) = true
     · simp only [Host.Motor.step, if_pos hd] at hok; cases hok
@@ -290,21 +301,18 @@ theorem motor_agrees (f : FMotor K) (h : Host.Motor K) (op : Host.MotorOp K) (hr
       simp only at hnt
       have hv : h.speed + (Host.Motor.clamp t - h.speed) / 20 * 20 = Host.Motor.clamp t := by
         field_simp; ring
-      have hn : NotTinyL (Host.Motor.clamp t) := by
-        have := hnt _ (rampGo_trace_last _ _ _ _)
-        rwa [hv, host_clamp_clamp] at this
+      have hn : NotTinyL (Host.Motor.clamp (.flt (h.speed + (Host.Motor.clamp t - h.speed) / 20 * 20))) :=
+        hnt _ (rampGo_trace_last _ _ _ _)
       have hi20 : (1 : Int) + ((20 : Nat) : Int) - 1 = 20 := by norm_num
-      simp only [motorOp, FMotor.step, rampLoop_eq, rampSt_eq, rampGo_st, hi20, rampVal_end, RelMotor, driveSt,
-        host_setSpeed_eq, hv, host_clamp_clamp, clampSpeed_toF, hi, if_true]
-      rw [if_neg (by norm_num), if_neg (by norm_num)]
-      simp only [clampSpeed_host, host_clamp_clamp]
-      exact ⟨trivial, trivial, hmode _ hn⟩
+      simp only [motorOp, FMotor.step, rampLoop_eq]
+      rw [rampSt_eq, rampGo_st, if_neg (by norm_num), if_neg (by norm_num)]
+      refine key _ _ ?_ hn
+      rw [hi20, rampVal_end, hv, clampSpeed_clampSpeed, host_clamp_clamp, clampSpeed_toF]
   | runFor d v =>
     by_cases hd : Val.lt d (.int 0) = true
     · simp only [Host.Motor.step, if_pos hd] at hok; cases hok
-    · simp only [motorOp, FMotor.step, drive_eq, Host.Motor.step, if_neg hd, RelMotor, driveSt, fzero_eq, zero_eq,
-        hi, modeImage]
-      exact ⟨trivial, trivial, trivial⟩
+    · simp only [motorOp, FMotor.step, drive_eq, Host.Motor.step, if_neg hd]
+      exact ⟨hz, hi, rfl⟩
 
 /-- applied speed query: `(inverted ? -speed : speed)` is the host's applied speed -/
 theorem motor_applied_getter (f : FMotor K) (h : Host.Motor K) (hrel : RelMotor f h)
